@@ -96,8 +96,8 @@ fn case_strategy() -> BoxedStrategy<Case> {
             (
                 Just(class),
                 proptest::collection::vec((1u8..5, prop_oneof![3 => Just(true), 1 => Just(false)]), 3),
-                proptest::collection::vec(caller, 1..=4),
-                proptest::collection::vec(reply_strategy(class == Class::Chunk), 0..12),
+                proptest::collection::vec(caller, 1..=vh_core::depth(4, 7)),
+                proptest::collection::vec(reply_strategy(class == Class::Chunk), 0..vh_core::depth(12, 32)),
                 prop_oneof![Just(Term::Finished), Just(Term::NotFound), Just(Term::QuorumFailed), Just(Term::Timeout)],
                 proptest::collection::vec(reply_strategy(false), 0..3),
             )
